@@ -213,6 +213,13 @@ func vpC10_O4() {
 		el.uncompress(NewEventList(evs...).compress())
 	}
 	err := upd.Prepend(el)
+	// the list handed in stays the caller's: nothing is written behind its end (where
+	// a later append by the caller would overwrite what the update now holds)
+	untouched := true
+	for _, ev := range el.Events[len(el.Events):cap(el.Events)] {
+		untouched = untouched && ev == nil
+	}
+	vpAssert("prepend does not write into the caller's event list", untouched)
 	if err != nil {
 		vpAssert("failed prepend leaves the update unchanged", len(upd.Events) == len(oldEvents) && upd.Events[0] == oldFirst)
 		return
